@@ -13,7 +13,12 @@ theorem bitset_spec (s : Small.BitSet) (v w : Nat) (hv : v < 256) (hw : w < 256)
 
 /-- T1: the functions this property's mirror model follows have today the source text the model was written against. -/
 -- (`filterBuiltIn`, the kernels and the bitset builders are regenerated as terms and proved: C02Kernels, C02Dispatch)
-theorem tie : Tie.sameAll ["ecolumn.maxCardinality", "ecolumn.nullValue", "ecolumn.bitset.set", "ecolumn.bitset.isSet", "ecolumn.compVal", "ecolumn.subset", "ecolumn.New", "ecolumn.NewConst", "ecolumn.NewFactory", "ecolumn.Factory.enumVal", "ecolumn.Factory.appendString", "ecolumn.Factory.AppendByteString", "ecolumn.Factory.AppendString"] = true := by decide
+-- Tie audit (bin/selftest-ties): the following functions are not compared as text any more; every behaviour-changing edit of
+-- them makes a `gen_*_canon` theorem of this property's modules fail, renaming their locals or reformatting them changes nothing:
+-- `maxCardinality`, `nullValue`, `New`, `NewConst`, `NewFactory`, `Factory.enumVal`, `Factory.appendString`, `Factory.AppendByteString`, `Factory.AppendString`: `Gen.factoryInit` /
+-- `Gen.factoryMethods` / `Gen.factoryNew` / `Gen.factoryNewConst` (east.go, constants resolved to their value), `C17Factory.gen_factory_canon` + `gen_factory_semantics` / `gen_factory_const_semantics`.
+-- `Column.subset`: `Gen.subsetAst` (last.go), `C04LoopsGen.gen_subset_canon` + `gen_subset_semantics`.
+theorem tie : Tie.sameAll ["ecolumn.bitset.set", "ecolumn.bitset.isSet", "ecolumn.compVal"] = true := by decide
 
 /-- Today's limits: 255 values, the code 255 is the null marker (so no value is ever reported as null). -/
 theorem gen_enum_constants :
